@@ -14,7 +14,8 @@ PAIRS = [
  ('logger_on',    dict(features=['LOG_INTERFACE'], _attach=1)),# logger attached
  ('verbose_log',  dict(features=['VERBOSE_DEBUG_LOG'], _attach=1)),
  ('payload',      dict(payload='u32')),
- ('sublimit3',    dict(sublimit=3)),
+ # (a pair differing in SUBSTITUTION_LIMIT was removed: the limit is observable by design as soon as a guard keeps substituting,
+ #  so it is not an "unrelated" switch)
  ('taskcap',      dict(features=['PLANS'], taskcap=5)),
  ('structure_report', dict(features=['STRUCTURE_REPORT'])),
  ('all',          dict(features=['ALL'], rng='stub')),
@@ -24,7 +25,6 @@ PAIRS = [
 def pair_case(fam, name, extra, entry_defs, cname, tier, witness=False, base_extra=None):
     oa = dict(BASE, fnprefix='A_', prefix='A_'); oa.update(base_extra or {})
     ob = dict(BASE, fnprefix='B_', prefix='B_'); ob.update(base_extra or {}); ob.update({k: v for k, v in extra.items() if not k.startswith('_')})
-    if name == 'sublimit3': pass
     fa = fixture('C15', fam, oa, tag='A' + ('_' + name if base_extra else ''))
     fb = fixture('C15', fam, ob, tag='B_' + name)
     defs = ['VF_TABLES="%s"' % fa['tables'], 'CB_KINDS=0x9e'] + entry_defs
